@@ -29,7 +29,7 @@ RULE = ("union of five complete lattices: [tableau] fixed-step method x grid (si
         "h-halving; [reject] method x non-1-D ts shapes.  Thorough adds value planes (rates / initial values scaled by "
         "seed-derived factors).  distinct = distinct observation hashes (extracted coefficients, error ratios, step "
         "counts); a case is trivial only for the single-time-point grid")
-RULE_ADDED = 'Added later: stage-2 conformance of every accepted adaptive step, per-step error budgets with the signed logarithmic norm, purely relative tolerances, call-order plane in fresh interpreters, mixdt (float32 time grid with float64 state: dtype, y[0] == y0 bit for bit, agreement with the float64 grid). Round 4: nested plane (the right-hand side calls solve_ivp re-entrantly with the same method and state size). Round 5: domain plane (adaptive method x right-hand sides that are NaN outside the half space containing the exact solution x long first output intervals x tolerances x dtype: the trial step that leaves the domain has to be rejected; finite result within the global error bound). Round 6: evaluation budget of the spied right-hand side (100 000 per solve; exceeding it is a violation).'
+RULE_ADDED = 'Added later: stage-2 conformance of every accepted adaptive step, per-step error budgets with the signed logarithmic norm, purely relative tolerances, call-order plane in fresh interpreters, mixdt (float32 time grid with float64 state: dtype, y[0] == y0 bit for bit, agreement with the float64 grid). Round 4: nested plane (the right-hand side calls solve_ivp re-entrantly with the same method and state size). Round 5: domain plane (adaptive method x right-hand sides that are NaN outside the half space containing the exact solution x long first output intervals x tolerances x dtype: the trial step that leaves the domain has to be rejected; finite result within the global error bound). Round 6: evaluation budget of the spied right-hand side (100 000 per solve; exceeding it is a violation). Round 7: cplx (complex state, non-normal complex linear system: matrix-exponential reference for the adaptive methods, textbook tableau in complex arithmetic for the fixed-step ones) and tol0 (rtol or atol given as exactly 0 / 0.0: purely absolute request on |y| ~ 1, purely relative request on |y| ~ 1e-12).'
 ASSUMPTIONS = [
     "the right-hand side is evaluated once at the start and then s times per attempted step of rk23/rk45, the last "
     "evaluation being at the end of the step (used only to read accept/reject and step counts from the call log; "
@@ -400,6 +400,16 @@ def cases(tier, seed):
         for d in dtypes:
             for inner in ("same", "rk4" if m != "rk4" else "rk45"):
                 out.append({"kind": "nested", "method": m, "inner": (m if inner == "same" else inner), "dtype": d})
+    # (g) complex state (y' = C y with a non-normal complex C; closed form by the matrix exponential; fixed-step
+    # methods against the textbook tableau in complex arithmetic) and (h) a tolerance given as exactly 0
+    for m in METHODS:
+        for g in ("u5", "ragged", "long", "u5-dec", "ragged-dec"):
+            for tl in (("default", "tight") if m in ADAPTIVE else ("-",)):
+                out.append({"kind": "cplx", "method": m, "grid": g, "tol": tl})
+    for m in ADAPTIVE:
+        for z in ("rtol0", "atol0", "atol0-int", "rtol0-int"):
+            for g in ("u5", "long", "u5-dec"):
+                out.append({"kind": "tol0", "method": m, "zero": z, "grid": g})
     from mc.props import _hist_common as H
     H.spread(out, H.hist_cases(len(HIST_LABELS), 2 if tier == "quick" else 3))
     return out
@@ -1192,9 +1202,104 @@ def run_nested(cfg):
     return {"viol": viol, "obs": {"d": rnd(d, 2), "calls": ncall[0]}, "status": "violation" if viol else "ok", "n": 2}
 
 
+def run_cplx(cfg):
+    """complex state: y' = C y, C complex and non-normal; y(t) = expm(C (t - t0)) y0"""
+    m = cfg["method"]
+    dt = torch.complex128
+    C = torch.tensor([[-0.2 + 1.5j, 0.4 + 0.0j], [-0.3j, -0.1 - 0.8j]], dtype=dt)
+    y0 = torch.tensor([1.0 + 0.5j, -0.5 + 1.0j], dtype=dt)
+    ts = torch.tensor(grid_points(cfg["grid"]), dtype=torch.float64)
+    nev = [0]
+
+    def f(t, y):
+        nev[0] += 1
+        return C @ y
+    opts = {}
+    if m in ADAPTIVE:
+        atol, rtol = TOLS[cfg["tol"]]
+        opts = {"atol": atol, "rtol": rtol}
+    o = _solve(f, ts, y0, m, **opts)
+    if o.exc is not None:
+        return {"viol": [_exc_v(o)], "obs": {"exc": o.exc_sig}, "status": "exception"}
+    y = o.value
+    viol = []
+    if tuple(y.shape) != (len(ts), 2) or y.dtype != dt:
+        return {"viol": [V("shape-or-dtype-mismatch", {"shape": list(y.shape), "dtype": str(y.dtype)})],
+                "obs": None, "status": "violation"}
+    ref = torch.stack([torch.linalg.matrix_exp(C * (t - ts[0])) @ y0 for t in ts])
+    ymax = float(ref.abs().max())
+    sgn = 1.0 if ts[-1] >= ts[0] else -1.0
+    mu = max(0.0, float(torch.linalg.eigvalsh(sgn * 0.5 * (C + C.conj().T))[-1]))
+    T = float((ts[-1] - ts[0]).abs())
+    err = float((y - ref).abs().max())
+    if m in ADAPTIVE:
+        bound = 10.0 * (atol + rtol * ymax) * max(nev[0] // STAGES[m], 1) * math.exp(mu * T) \
+            + 100 * 2.3e-16 * nev[0] * ymax * math.exp(mu * T)
+        if not err <= bound:
+            viol.append(V("global-error-above-bound", {"err": err, "bound": bound, "evaluations": nev[0]}))
+    else:
+        yk = y0
+        worst = 0.0
+        for i in range(len(ts) - 1):
+            yk, scale, _ = _ref_step(m, lambda t, v: C @ v, float(ts[i]), float(ts[i + 1] - ts[i]), yk)
+            d = float((y[i + 1] - yk).abs().max())
+            worst = max(worst, d / (1e-13 * max(scale, 1.0) * (i + 1)))
+        if worst > 1.0:
+            viol.append(V("fixed-step-result-is-not-the-textbook-scheme", {"ratio": worst}))
+    if not bool(torch.equal(y[0], y0)):
+        viol.append(V("first-row-is-not-y0", {}))
+    return {"viol": viol, "obs": {"err": rnd(err, 2), "nev": nev[0]}, "status": "violation" if viol else "ok"}
+
+
+def run_tol0(cfg):
+    """a tolerance given as exactly 0: rtol = 0 (purely absolute request, |y| ~ 1) or atol = 0 (purely relative
+    request on a solution of size 1e-12); '-int' variants pass the zero as the integer 0"""
+    m = cfg["method"]
+    z = cfg["zero"]
+    zero = 0 if z.endswith("-int") else 0.0
+    dt = torch.float64
+    ts = torch.tensor(grid_points(cfg["grid"]), dtype=dt)
+    a = torch.tensor([-0.7, -0.2], dtype=dt)
+    if z.startswith("rtol0"):
+        y0 = torch.tensor([1.0, -2.0], dtype=dt)
+        atol, rtol = 1e-9, zero
+    else:
+        y0 = torch.tensor([1e-12, -2e-12], dtype=dt)
+        atol, rtol = zero, 1e-7
+    nev = [0]
+
+    def f(t, y):
+        nev[0] += 1
+        return a * y
+    o = _solve(f, ts, y0, m, atol=atol, rtol=rtol)
+    if o.exc is not None:
+        return {"viol": [_exc_v(o)], "obs": {"exc": o.exc_sig}, "status": "exception"}
+    y = o.value
+    ref = y0 * torch.exp(a * (ts - ts[0]).unsqueeze(-1))
+    sgn = 1.0 if ts[-1] >= ts[0] else -1.0
+    mu = max(0.0, float((sgn * a).max()))
+    T = float((ts[-1] - ts[0]).abs())
+    ymax = float(ref.abs().max())
+    err = float((y - ref).abs().max())
+    steps = max(nev[0] // STAGES[m], 1)
+    bound = 10.0 * (float(atol) + float(rtol) * ymax) * steps * math.exp(mu * T) \
+        + 100 * 2.3e-16 * nev[0] * ymax * math.exp(mu * T)
+    viol = []
+    if nev[0] > 100000:
+        viol.append(V("evaluation-budget-exceeded", {"evaluations": nev[0]}))
+    if not err <= bound:
+        viol.append(V("global-error-above-bound", {"err": err, "bound": bound, "evaluations": nev[0]}))
+    return {"viol": viol, "obs": {"err_over_bound": rnd(err / bound, 2), "nev": nev[0]},
+            "status": "violation" if viol else "ok"}
+
+
 def run_case(cfg):
     torch.manual_seed(0)
     k = cfg["kind"]
+    if k == "cplx":
+        return run_cplx(cfg)
+    if k == "tol0":
+        return run_tol0(cfg)
     if k == "nested":
         return run_nested(cfg)
     if k == "mixdt":
